@@ -227,6 +227,145 @@ where
       rw [mem_insertSorted, ih]
       simp [eq_comm]
 
+/-! ## The model of `is_reachable_dfs` itself (partial correctness, all graphs) -/
+
+/-- reachability w.r.t. an arbitrary successor function -/
+inductive ReachS (succ : Name → List Name) : Name → Name → Prop
+  | arc {a b : Name} : b ∈ succ a → ReachS succ a b
+  | step {a m b : Name} : ReachS succ a m → b ∈ succ m → ReachS succ a b
+
+/-- **Soundness of the work-list loop.** If everything on the stack is reachable from `a`, a
+    `true` answer is witnessed by a genuine path. -/
+theorem reachGo_sound (succ : Name → List Name) (a end_ : Name) :
+    ∀ (f : Nat) (stack seen : List Name), (∀ x ∈ stack, ReachS succ a x) →
+      reachGo succ end_ f stack seen = .ok true → ReachS succ a end_ := by
+  intro f
+  induction f with
+  | zero => intro stack seen _ h; simp [reachGo] at h
+  | succ f ih =>
+    intro stack seen hst h
+    cases stack with
+    | nil => simp [reachGo] at h
+    | cons blk rest =>
+      simp only [reachGo] at h
+      split at h
+      · exact ih rest seen (fun x hx => hst x (by simp [hx])) h
+      · split at h
+        · next heq =>
+          have : blk = end_ := by simpa using heq
+          exact this ▸ hst blk (by simp)
+        · refine ih _ _ ?_ h
+          intro x hx
+          rcases List.mem_append.mp hx with h1 | h1
+          · exact ReachS.step (hst blk (by simp)) (List.mem_reverse.mp h1)
+          · exact hst x (by simp [h1])
+
+/-- **Completeness of the work-list loop.** Invariant: `end_` is not seen, and every successor
+    of a seen node is seen or on the stack. If the loop then answers `false`, nothing the stack
+    or the seen set reaches is `end_`. -/
+theorem reachGo_complete (succ : Name → List Name) (end_ : Name) :
+    ∀ (f : Nat) (stack seen : List Name),
+      (end_ ∉ seen) → (∀ x ∈ seen, ∀ y ∈ succ x, y ∈ seen ∨ y ∈ stack) →
+      reachGo succ end_ f stack seen = .ok false →
+      ∃ closed : List Name, end_ ∉ closed ∧ (∀ x ∈ stack, x ∈ closed) ∧ (∀ x ∈ seen, x ∈ closed) ∧
+        ∀ x ∈ closed, ∀ y ∈ succ x, y ∈ closed := by
+  intro f
+  induction f with
+  | zero => intro stack seen _ _ h; simp [reachGo] at h
+  | succ f ih =>
+    intro stack seen hend hcl h
+    cases stack with
+    | nil =>
+      refine ⟨seen, hend, by simp, fun x hx => hx, ?_⟩
+      intro x hx y hy
+      rcases hcl x hx y hy with h1 | h1
+      · exact h1
+      · simp at h1
+    | cons blk rest =>
+      simp only [reachGo] at h
+      split at h
+      · next hseen =>
+        have hb : blk ∈ seen := by simpa [List.contains_iff_mem] using hseen
+        obtain ⟨cl, h1, h2, h3, h4⟩ := ih rest seen hend (by
+          intro x hx y hy
+          rcases hcl x hx y hy with e | e
+          · exact Or.inl e
+          · rcases List.mem_cons.mp e with e2 | e2
+            · exact Or.inl (e2 ▸ hb)
+            · exact Or.inr e2) h
+        refine ⟨cl, h1, ?_, h3, h4⟩
+        intro x hx
+        rcases List.mem_cons.mp hx with e | e
+        · exact e ▸ h3 blk hb
+        · exact h2 x e
+      · next hnseen =>
+        split at h
+        · simp at h
+        · next hne =>
+          have hbe : blk ≠ end_ := by simpa using hne
+          obtain ⟨cl, h1, h2, h3, h4⟩ := ih ((succ blk).reverse ++ rest) (blk :: seen)
+            (by
+              intro hm
+              rcases List.mem_cons.mp hm with e | e
+              · exact hbe e.symm
+              · exact hend e)
+            (by
+              intro x hx y hy
+              rcases List.mem_cons.mp hx with e | e
+              · subst e
+                exact Or.inr (List.mem_append.mpr (Or.inl (List.mem_reverse.mpr hy)))
+              · rcases hcl x e y hy with e2 | e2
+                · exact Or.inl (by simp [e2])
+                · rcases List.mem_cons.mp e2 with e3 | e3
+                  · exact Or.inl (by simp [e3])
+                  · exact Or.inr (List.mem_append.mpr (Or.inr e3))) h
+          refine ⟨cl, h1, ?_, fun x hx => h3 x (by simp [hx]), h4⟩
+          intro x hx
+          rcases List.mem_cons.mp hx with e | e
+          · exact e ▸ h3 blk (by simp)
+          · exact h2 x (List.mem_append.mpr (Or.inr e))
+
+theorem reachS_closed (succ : Name → List Name) (cl : List Name)
+    (hcl : ∀ x ∈ cl, ∀ y ∈ succ x, y ∈ cl) {a b : Name} (h : ReachS succ a b)
+    (ha : ∀ y ∈ succ a, y ∈ cl) : b ∈ cl := by
+  induction h with
+  | arc hb => exact ha _ hb
+  | step _ hb ih => exact hcl _ ih _ hb
+
+/-- **`is_reachable_dfs`, partial correctness of the model, for every graph** (members with
+    external, duplicate and self targets alike): whenever the model answers, the answer is
+    `true` exactly when a path of at least one non-back-edge arc, continuing only through
+    members, leads from `begin` to `end`. (That the fuel always suffices is observed by the
+    correspondence runs, not proved.) -/
+theorem reachDfs_spec (H : Hier) (c a b : Name) (r : Bool) (h : reachDfs H c a b = .ok r) :
+    r = true ↔ ReachS (succIn' H c) a b := by
+  unfold reachDfs at h
+  cases hg : getIn "is_reachable_dfs" H c a with
+  | error e => simp [hg, bind, Except.bind] at h
+  | ok blk =>
+    simp only [hg, bind, Except.bind] at h
+    have hsucc : succIn' H c a = blk.jt := by
+      unfold getIn at hg
+      unfold succIn'
+      split at hg
+      · simp at hg
+      · next x hx => simp only [Except.ok.injEq] at hg; simp [hx, hg]
+    constructor
+    · intro hr
+      subst hr
+      refine reachGo_sound _ a b _ _ [] ?_ h
+      intro x hx
+      exact ReachS.arc (hsucc ▸ List.mem_reverse.mp hx)
+    · intro hreach
+      cases r with
+      | true => rfl
+      | false =>
+        exfalso
+        obtain ⟨cl, h1, h2, _, h4⟩ := reachGo_complete _ b _ _ [] (by simp) (by simp) h
+        exact h1 (reachS_closed _ cl h4 hreach (by
+          intro y hy
+          exact h2 y (List.mem_reverse.mpr (hsucc ▸ hy))))
+
 /-! Non-vacuity (kernel evaluation). -/
 def exLvl : List Blk := [
   { cont := "m", name := "a", jts := ["b", "x"] },
